@@ -10572,7 +10572,7 @@ def regenerate(only=None):
         try:
             text = g()
             tie, detail = "A", "translated"
-        except (Untranslatable, SyntaxError, OSError, KeyError, IndexError) as e:
+        except Exception as e:      # noqa: BLE001 - an unforeseen shape of the source must never stop a check: fall back to tie B
             # fall back: keep the file importable by re-exporting the hand-written twin
             text = FALLBACK[name]
             tie, detail = "B-only", "untranslatable: %s" % (str(e)[:300])
